@@ -261,7 +261,9 @@ HeartbeatTickS(ep, now, H, S, up) ==
              e1 == IF ep.cs = "ACTIVE" /\ now - ep.last > (H - 1) * S
                    THEN LET s == IF ep.treq = 0
                                  THEN SendMsg([ep EXCEPT !.treq = sec], TRFrame(ToString(sec)), up) ELSE ep
-                        IN IF Failed(s) THEN s ELSE [s EXCEPT !.last = now]
+                        \* a failed send is logged and the loop iterates again at once (no sleep): the TestReqID is set by then,
+                        \* so the second pass only stamps the time
+                        IN [Swallow(s) EXCEPT !.last = now]
                    ELSE ep
              e2 == IF ~Failed(e1) /\ e1.last # 0 /\ now - e1.last > 2 * H * S THEN Disconnect(e1, BROKEN, "none", up) ELSE e1
              e3 == IF ~Failed(e2) /\ e2.treq # 0 /\ now - e2.treq * S > 2 * H * S THEN Disconnect(e2, BROKEN, "none", up) ELSE e2
